@@ -92,6 +92,50 @@ fn gen_case(r: &mut Rng, tier: &str) -> (String, u64, Vec<i64>, usize, usize) {
     (name.to_string(), alg, ws, k, plen)
 }
 
+/// weights of a given length for the reuse stream (values: random, ties, zeros, small alphabet, powers of two)
+fn gen_values(r: &mut Rng, n: usize) -> Vec<i64> {
+    match r.below(6) {
+        0 => (0..n).map(|_| r.range(0, 100)).collect(),
+        1 => {
+            let v = r.range(1, 9);
+            (0..n).map(|_| if r.chance(4, 5) { v } else { r.range(0, 9) }).collect()
+        }
+        2 => (0..n).map(|_| if r.chance(1, 2) { 0 } else { r.range(0, 5) }).collect(),
+        3 => (0..n).map(|_| r.range(0, 3)).collect(),
+        4 => (0..n).map(|_| 1i64 << r.range(0, 6)).collect(),
+        _ => (0..n).map(|_| r.range(1, 9)).collect(),
+    }
+}
+
+/// One call of a partitioner VALUE that outlives the call (`Partition::partition` takes `&mut self`):
+/// the value goes in and comes back out, so that whatever the call did to it is seen by the next call.
+#[derive(Clone, Copy)]
+enum Part {
+    G(coupe::Greedy),
+    K(coupe::KarmarkarKarp),
+}
+
+fn call(part: Part, buf: Vec<usize>, ws: Vec<i64>, flt: bool) -> Guarded<(Result<Vec<usize>, coupe::Error>, Part)> {
+    guarded(0, Duration::from_secs(20), move || {
+        let mut p = buf;
+        match part {
+            Part::G(mut g) => {
+                let r = if flt {
+                    let wf: Vec<f64> = ws.iter().map(|x| *x as f64).collect();
+                    g.partition(&mut p, wf.iter().cloned())
+                } else {
+                    g.partition(&mut p, ws.iter().cloned())
+                };
+                (r.map(|()| p), Part::G(g))
+            }
+            Part::K(mut k) => {
+                let r = k.partition(&mut p, ws.iter().cloned());
+                (r.map(|()| p), Part::K(k))
+            }
+        }
+    })
+}
+
 fn main() {
     let a = parse_args();
     quiet_panics();
@@ -106,11 +150,131 @@ fn main() {
     let mut hangs = 0usize;
     let mut panics = 0usize;
     let mut f64_runs = 0usize;
-    for idx in 0..a.cases {
+    let mut reuse_sequences = 0usize;
+    let mut reuse_calls = 0usize;
+    let mut idx = 0usize;
+    while idx < a.cases {
         let mut r = rng.fork();
+        if r.chance(1, 6) {
+            // ---- reuse stream: ONE partitioner value, a short sequence of calls with different inputs
+            // (fewer weights than parts first, then more; other lengths; the output buffer of one call,
+            // resized, is the dirty buffer of the next).  Every call is a case of its own: the model runs on
+            // that call's input with the ORIGINAL part count, the checker judges that call's output.
+            reuse_sequences += 1;
+            let alg = r.below(2);
+            let k = match r.below(10) {
+                0 => r.below(2) as usize,
+                1 => 9 + r.below(4) as usize,
+                _ => r.range(2, 8) as usize,
+            };
+            let ncalls = r.range(2, 4) as usize;
+            let mut part = if alg == 0 {
+                Part::G(coupe::Greedy { part_count: k })
+            } else {
+                Part::K(coupe::KarmarkarKarp { part_count: k })
+            };
+            let mut buf: Vec<usize> = Vec::new();
+            let mut earlier: Vec<String> = Vec::new();
+            let mut alive = true;
+            for pos in 0..ncalls {
+                if idx >= a.cases {
+                    break;
+                }
+                let n = if pos == 0 && r.chance(2, 3) {
+                    r.below(k.max(1) as u64) as usize // fewer weights than parts
+                } else if r.chance(3, 4) {
+                    k + 1 + r.below(12) as usize // more weights than parts
+                } else {
+                    r.below(10) as usize
+                };
+                let ws = gen_values(&mut r, n);
+                let flt = alg == 0 && r.chance(1, 4);
+                // the buffer: what the previous call left, resized (garbage in the new entries)
+                let mut plen = n;
+                if r.chance(1, 12) {
+                    plen = if r.chance(1, 2) { n + 1 } else { n.saturating_sub(1) };
+                }
+                let fill = *r.pick(&[usize::MAX, 0usize, 1, 7, 1000]);
+                if pos == 0 {
+                    buf = vec![usize::MAX; plen];
+                } else {
+                    buf.resize(plen, fill);
+                }
+                let p0 = buf.clone();
+                let (res, coq_res): (Guarded<Result<Vec<usize>, coupe::Error>>, String) = if alive {
+                    match call(part, buf.clone(), ws.clone(), flt) {
+                        Guarded::Done((r1, part1)) => {
+                            part = part1;
+                            if let Ok(p) = &r1 {
+                                buf = p.clone();
+                            }
+                            let g = Guarded::Done(r1);
+                            let c = coq_impl_partition(&g);
+                            (g, c)
+                        }
+                        Guarded::Panic(m) => {
+                            panics += 1;
+                            alive = false;
+                            (Guarded::Panic(m), "IPanic".to_string())
+                        }
+                        Guarded::Hang => {
+                            hangs += 1;
+                            alive = false;
+                            (Guarded::Hang, "IHang".to_string())
+                        }
+                    }
+                } else {
+                    break; // the value was lost in a panic / hang: the sequence ends
+                };
+                if flt {
+                    f64_runs += 1;
+                }
+                reuse_calls += 1;
+                let this_call = format!(
+                    "{{\"weights\":{},\"buffer\":{},\"f64\":{}}}",
+                    json_i64s(&ws),
+                    json_usizes(&p0),
+                    flt
+                );
+                if a.only.map_or(true, |o| o == idx) {
+                    let coq = format!(
+                        "mk12 {}%N {} {}%nat {} {} None",
+                        alg,
+                        coq_zlist(ws.iter().map(|x| *x as i128)),
+                        k,
+                        coq_nlist(p0.iter().map(|x| *x as u128)),
+                        coq_res
+                    );
+                    let json = format!(
+                        "{{\"algorithm\":\"{}\",\"weights\":{},\"part_count\":{},\"partition_len\":{},\"buffer\":{},\"f64\":{},\"impl\":{},\"reuse\":{{\"position\":{},\"note\":\"same partitioner value as the earlier calls\",\"earlier_calls\":[{}]}}}}",
+                        if alg == 0 { "Greedy" } else { "KarmarkarKarp" },
+                        json_i64s(&ws),
+                        k,
+                        plen,
+                        json_usizes(&p0),
+                        flt,
+                        json_impl_partition(&res),
+                        pos,
+                        earlier.join(",")
+                    );
+                    let key = format!("reuse|{}|{:?}|{}|{:?}|{}", alg, ws, k, p0, earlier.len());
+                    let nontrivial = plen == ws.len() && k >= 2 && ws.len() >= 3 && ws.iter().any(|x| *x != 0);
+                    let fam = format!("{}:reuse", if alg == 0 { "greedy" } else { "kk" });
+                    w.push(coq, json, &key, nontrivial, &fam);
+                }
+                earlier.push(this_call);
+                idx += 1;
+            }
+            if hangs > 3 {
+                break;
+            }
+            continue;
+        }
         let (fam, alg, ws, k, plen) = gen_case(&mut r, &a.tier);
+        let this = idx;
+        idx += 1;
         if let Some(o) = a.only {
-            if o != idx {
+            if o != this {
                 continue;
             }
         }
@@ -177,5 +341,8 @@ fn main() {
             break;
         }
     }
-    w.finish(&format!("\"hangs\":{},\"panics\":{},\"f64_runs\":{}", hangs, panics, f64_runs));
+    w.finish(&format!(
+        "\"hangs\":{},\"panics\":{},\"f64_runs\":{},\"reuse_sequences\":{},\"reuse_calls\":{}",
+        hangs, panics, f64_runs, reuse_sequences, reuse_calls
+    ));
 }
